@@ -736,11 +736,20 @@ fn refresh_coordinate_keys(
 
                 // Add the most recent secrets from the MSK that do not belong
                 // to the USK at the front of the updated chain (cf Invariant.1)
+                let mut is_first_secret_in_msk = false;
                 for (_, msk_secret) in msk_secrets.by_ref() {
                     if msk_secret == &first_secret {
+                        is_first_secret_in_msk = true;
                         break;
                     }
                     updated_chain.push_back(msk_secret.clone());
+                }
+
+                // If the most recent USK secret does not belong to the MSK
+                // anymore (it has been pruned), neither do the older ones: the
+                // USK is only given the MSK secrets (cf Invariant.2).
+                if !is_first_secret_in_msk {
+                    return Some((coordinate, updated_chain));
                 }
 
                 // Push the first USK secret since it was consumed from the USK
